@@ -91,12 +91,13 @@ func matchStream(g *hx.Gen, id int) hx.Case {
 	}
 	s := genMatchedString(g, rs)
 	method := genMethod(g)
+	method2 := genMethod(g)
 	in := hx.RulesTokens(rs)
 	u, perr := url.Parse(s)
 	if perr != nil {
-		in = append(in, hx.X(s), "0", hx.X(""), hx.X(""), hx.X(""), hx.X(method))
+		in = append(in, hx.X(s), "0", hx.X(""), hx.X(""), hx.X(""), hx.X(method), hx.X(method2))
 	} else {
-		in = append(in, hx.X(s), "1", hx.X(u.Scheme), hx.X(u.Host), hx.X(u.RequestURI()), hx.X(method))
+		in = append(in, hx.X(s), "1", hx.X(u.Scheme), hx.X(u.Host), hx.X(u.RequestURI()), hx.X(method), hx.X(method2))
 	}
 	impl := hx.Guard(func() []string {
 		rules, err := proxy.ParseRules(hx.RulesJSON(rs), Logger)
@@ -107,7 +108,17 @@ func matchStream(g *hx.Gen, id int) hx.Case {
 		if err != nil {
 			return []string{"err:match"}
 		}
-		return []string{hx.I(pi), hx.X(pt), hx.I(ci), hx.X(ct)}
+		out := []string{hx.I(pi), hx.X(pt), hx.I(ci), hx.X(ct)}
+		// history: the SAME Rules value is asked again — same string with another method, then the
+		// first query once more (matching must not depend on what was asked before)
+		for _, m := range []string{method2, method} {
+			pi, pt, ci, ct, err := proxy.VerifMatch(rules, s, m)
+			if err != nil {
+				return []string{"err:match"}
+			}
+			out = append(out, hx.I(pi), hx.X(pt), hx.I(ci), hx.X(ct))
+		}
+		return out
 	})
 	return hx.Case{Stream: "match", ID: id, In: in, Impl: impl}
 }
